@@ -25,7 +25,8 @@ RedErr == {Leaf("arg"), Leaf("authn")}
 RedOut == {<<"ok">>, <<"panic">>} \cup {<<"err", e>> : e \in RedErr}
 
 FullErr == {Leaf("arg"), Leaf("authn"), Leaf("authz"), Leaf("comm"), Leaf("timeout"),
-            Leaf("internal"), Leaf("config"), Leaf("norule"), Leaf("foreign"),
+            Leaf("internal"), Leaf("config"), Leaf("norule"), Leaf("foreign"), Leaf("canceled"),
+            <<"chain", <<Leaf("comm"), Leaf("canceled")>>>>, <<"wrap", Leaf("canceled")>>,
             <<"chain", <<Leaf("authn"), Leaf("arg")>>>>,
             <<"chain", <<Leaf("internal"), Leaf("arg")>>>>,
             <<"wrap", Leaf("arg")>>, <<"wrap", Leaf("authz")>>,
